@@ -56,3 +56,11 @@ func (kpr *Keyper) VerifMaybeTriggerDecryption(ctx context.Context, header *type
 func VerifNewHandlers(dbpool *pgxpool.Pool) (shares p2p.MessageHandler, keys p2p.MessageHandler) {
 	return &DecryptionKeySharesHandler{dbpool}, &DecryptionKeysHandler{dbpool}
 }
+
+// VerifLatestTriggeredTime returns the in-memory high-water mark of time based triggers.
+func (kpr *Keyper) VerifLatestTriggeredTime() (uint64, bool) {
+	if kpr.latestTriggeredTime == nil {
+		return 0, false
+	}
+	return *kpr.latestTriggeredTime, true
+}
